@@ -259,16 +259,66 @@ theorem causeOf_congr (s s' : State E) (h1 : s'.base = s.base) (h2 : s'.ess = s.
   unfold causeOf
   rw [h1, h2, h3, h4, h5, h6]
 
-theorem hbound_of_open (env : Env) (s s' : State E) (hc : causeOf s' = causeOf s) (hp' : s'.pending = true)
-    (hpm : env.prematch = true) (hh : isHandler s = true) :
-    hbound env s' = 2 * Uv (env.sel (causeOf s)) s'.P + Av (env.sel (causeOf s)) s'.P s'.now
-      + (if extras (cfgOf env s) s'.P s'.now then 1 else 0) + 1
-      + Cv env.cap (env.sel (causeOf s)) s'.P s'.now := by
-  have hh' : isHandler s' = true := by unfold isHandler; rw [hc]; exact hh
-  have hcfg : cfgOf env s' = cfgOf env s := by unfold cfgOf; rw [hc]
+theorem selOf_sub (env : Env) (wf : WF env) (s : State E) : ∀ i ∈ selOf env s, i ∈ env.owned := by
+  intro i hi
+  unfold selOf at hi
+  exact wf.sub _ i (List.mem_filter.1 hi).1
+
+theorem Uv_filter_le (l : List Id) (p : Id → Bool) (P : Store) : Uv (l.filter p) P ≤ Uv l P := by
+  unfold Uv
+  induction l with
+  | nil => simp
+  | cons a as ih =>
+    simp only [List.filter_cons]
+    cases hp : p a <;> cases hu : unfin P a <;> simp [hp, hu] <;> omega
+
+theorem Cv_filter_le (cap : Tick) (l : List Id) (p : Id → Bool) (P : Store) (t : Tick) :
+    Cv cap (l.filter p) P t ≤ Cv cap l P t := by
+  unfold Cv
+  induction l with
+  | nil => simp
+  | cons a as ih =>
+    simp only [List.filter_cons]
+    cases hp : p a <;> simp [hp] <;> omega
+
+/-- after an open pass the selection can only lose resuming handlers that just finished -/
+theorem selOf_next (env : Env) (s : State E) (hc : (pass env s).closed = false) (a : Tick) (b : Bool) (c : Nat) :
+    selOf env (nextState env s a b c) =
+      (selOf env s).filter (fun i => !(env.initialH i &&
+        ((selOf env s).filter (fun j => env.initialH j && unfin s.P j && !unfin (pass env s).P' j)).contains i)) := by
+  have hcz : causeOf (nextState env s a b c) = causeOf s :=
+    causeOf_congr s _ (by simp [nextState, hc]) rfl rfl (by simp [nextState, hc]) rfl rfl
+  unfold selOf
+  rw [hcz]
+  show (env.sel (causeOf s)).filter (fun i => !(env.initialH i && (resumedAfter env s).contains i)) = _
+  unfold resumedAfter
+  simp only [hc, Bool.false_eq_true, if_false]
+  rw [List.filter_filter]
+  apply List.filter_congr
+  intro i _
+  unfold selOf
+  cases env.initialH i <;> simp [List.contains_eq_mem, List.mem_append]
+
+theorem selOf_next_mem (env : Env) (s : State E) (hc : (pass env s).closed = false) (a : Tick) (b : Bool) (c : Nat)
+    (i : Id) (hi : i ∈ selOf env s) (hu : unfin (pass env s).P' i = true) :
+    i ∈ selOf env (nextState env s a b c) := by
+  rw [selOf_next env s hc]
+  rw [List.mem_filter]
+  refine ⟨hi, ?_⟩
+  cases hI : env.initialH i
+  · simp
+  · simp only [Bool.true_and, Bool.not_eq_true', List.contains_eq_mem, decide_eq_false_iff_not, List.mem_filter]
+    intro h
+    simp [hu] at h
+
+theorem hbound_of_open (env : Env) (s' : State E) (hp' : s'.pending = true)
+    (hpm : env.prematch = true) (hh' : isHandler s' = true) :
+    hbound env s' = 2 * Uv (selOf env s') s'.P + Av (selOf env s') s'.P s'.now
+      + (if extras (cfgOf env s') s'.P s'.now then 1 else 0) + 1
+      + Cv env.cap (selOf env s') s'.P s'.now := by
   unfold hbound core
   rw [extrasOf_eq]
-  simp only [hp', hpm, hh', hc, hcfg, Bool.not_true, Bool.false_eq_true, if_false]
+  simp only [hp', hpm, hh', Bool.not_true, Bool.false_eq_true, if_false]
 
 theorem hbound_not_pending (env : Env) (s' : State E) (h : s'.pending = false) : hbound env s' = 0 := by
   unfold hbound; simp [h]
@@ -372,12 +422,12 @@ theorem handle_decreases (env : Env) (wf : WF env) (hfin : AllFinal env) (s : St
     · rw [hdl] at hm; simp [minDelay] at hm
     · rw [h, hb, hbound_not_pending _ _ rfl, hch]; decide
   -- a handler reason
-  have hsub : ∀ i ∈ (cfgOf env s).selected, i ∈ (cfgOf env s).owned := fun i hi => wf.sub _ i hi
+  have hsub : ∀ i ∈ (cfgOf env s).selected, i ∈ (cfgOf env s).owned := fun i hi => selOf_sub env wf s i hi
   have hr : handlerReasons.contains (cfgOf env s).reason = true := hh
-  have hb : hbound env s = 2 * Uv (env.sel (causeOf s)) s.P + Av (env.sel (causeOf s)) s.P s.now
-      + (if extras (cfgOf env s) s.P s.now then 1 else 0) + 1 + Cv env.cap (env.sel (causeOf s)) s.P s.now :=
-    hbound_of_open env s s rfl hp hpm hh
-  have hpos := two_U_add_A_pos (env.sel (causeOf s)) s.P s.now
+  have hb : hbound env s = 2 * Uv (selOf env s) s.P + Av (selOf env s) s.P s.now
+      + (if extras (cfgOf env s) s.P s.now then 1 else 0) + 1 + Cv env.cap (selOf env s) s.P s.now :=
+    hbound_of_open env s hp hpm hh
+  have hpos := two_U_add_A_pos (selOf env s) s.P s.now
   by_cases hc : (pass env s).closed = true
   · -- the closing pass: afterwards at most the echo of its PATCH is processed
     have hmk := hcm hc
@@ -400,8 +450,7 @@ theorem handle_decreases (env : Env) (wf : WF env) (hfin : AllFinal env) (s : St
       rw [this] at hc'
       cases hc'
   have hopen : (cycle (cfgOf env s) s.P s.now s.now env.exec).closed = false := hc'
-  have hsel : (cfgOf env s).selected = env.sel (causeOf s) := rfl
-  have hULe : Uv (env.sel (causeOf s)) (pass env s).P' ≤ Uv (env.sel (causeOf s)) s.P :=
+  have hULe : Uv (selOf env s) (pass env s).P' ≤ Uv (selOf env s) s.P :=
     open_U_le (cfgOf env s) s.P s.now env.exec hsub hu hr hne hopen hfin
   have hX : ∀ now', extras (cfgOf env s) (pass env s).P' now' = false := fun now' =>
     noExtras_extras hsub (noExtras_after (cfgOf env s) s.P s.now s.now env.exec hsub hr hne)
@@ -409,23 +458,42 @@ theorem handle_decreases (env : Env) (wf : WF env) (hfin : AllFinal env) (s : St
   have hfh : (s.fullyHandled || (pass env s).closed) = s.fullyHandled := by simp [hc']
   -- bound of the next state, whenever an event is pending there
   have key : ∀ (now' : Tick) (w : Nat), s.now ≤ now' →
-      hbound env (nextState env s now' true w)
-        = 2 * Uv (env.sel (causeOf s)) (pass env s).P' + Av (env.sel (causeOf s)) (pass env s).P' now' + 0 + 1
-          + Cv env.cap (env.sel (causeOf s)) (pass env s).P' now' ∧
-        Cv env.cap (env.sel (causeOf s)) (pass env s).P' now' ≤ Cv env.cap (env.sel (causeOf s)) s.P s.now := by
+      ∃ A', hbound env (nextState env s now' true w)
+        = 2 * Uv (selOf env (nextState env s now' true w)) (pass env s).P' + A' + 0 + 1
+          + Cv env.cap (selOf env (nextState env s now' true w)) (pass env s).P' now' ∧
+        A' = Av (selOf env (nextState env s now' true w)) (pass env s).P' now' ∧
+        Uv (selOf env (nextState env s now' true w)) (pass env s).P' ≤ Uv (selOf env s) (pass env s).P' ∧
+        Cv env.cap (selOf env (nextState env s now' true w)) (pass env s).P' now' ≤ Cv env.cap (selOf env s) s.P s.now := by
     intro now' w hle
-    constructor
-    · have hcz : causeOf (nextState env s now' true w) = causeOf s :=
-        causeOf_congr s _ hbase rfl rfl hfh rfl rfl
-      rw [hbound_of_open env s _ hcz rfl hpm hh]
-      simp only [nextState, hX now', Bool.false_eq_true, if_false]
-    · exact open_C_le (cfgOf env s) s.P s.now env.exec hsub hu hr hne hopen hfin env.cap now' hle
-  have hAle : ∀ now', Av (env.sel (causeOf s)) (pass env s).P' now' ≤ 1 := fun _ => Av_le_one _ _ _
-  by_cases haw : (env.sel (causeOf s)).any (awakeP s.P s.now) = true
+    have hcz : causeOf (nextState env s now' true w) = causeOf s :=
+      causeOf_congr s _ hbase rfl rfl hfh rfl rfl
+    have hh' : isHandler (nextState env s now' true w) = true := by unfold isHandler; rw [hcz]; exact hh
+    have hsub' : ∀ i ∈ (cfgOf env (nextState env s now' true w)).selected,
+        i ∈ (cfgOf env (nextState env s now' true w)).owned := fun i hi => selOf_sub env wf _ i hi
+    have hne' : NoExtras (cfgOf env (nextState env s now' true w)) (pass env s).P' := by
+      have h0 := noExtras_after (cfgOf env s) s.P s.now s.now env.exec hsub hr hne
+      intro i ho r hP
+      have := h0 i ho r hP
+      show r.purpose = none ∨ r.purpose = some (C14.reasonStr (causeOf (nextState env s now' true w)).reason)
+      rw [hcz]
+      exact this
+    have hX' : extras (cfgOf env (nextState env s now' true w)) (pass env s).P' now' = false :=
+      noExtras_extras hsub' hne'
+    refine ⟨Av (selOf env (nextState env s now' true w)) (pass env s).P' now', ?_, rfl, ?_, ?_⟩
+    · rw [hbound_of_open env _ rfl hpm hh']
+      show 2 * Uv _ (pass env s).P' + Av _ (pass env s).P' now' +
+        (if extras (cfgOf env (nextState env s now' true w)) (pass env s).P' now' = true then 1 else 0) + 1 + _ = _
+      rw [hX']
+      rfl
+    · rw [selOf_next env s hc']; exact Uv_filter_le _ _ _
+    · rw [selOf_next env s hc']
+      exact Nat.le_trans (Cv_filter_le _ _ _ _ _)
+        (open_C_le (cfgOf env s) s.P s.now env.exec hsub hu hr hne hopen hfin env.cap now' hle)
+  by_cases haw : (selOf env s).any (awakeP s.P s.now) = true
   · -- somebody is due: at least one handler reaches its final outcome
     rw [List.any_eq_true] at haw
     obtain ⟨i, hi, ha⟩ := haw
-    have hULt : Uv (env.sel (causeOf s)) (pass env s).P' < Uv (env.sel (causeOf s)) s.P :=
+    have hULt : Uv (selOf env s) (pass env s).P' < Uv (selOf env s) s.P :=
       open_U_lt (cfgOf env s) s.P s.now env.exec hsub hu hr hne hopen hfin i hi ha
     rcases handleTurn_cases env s with ⟨_, h⟩ | ⟨d, _, hm, h⟩ | ⟨_, _, h⟩
     · rw [h]
@@ -449,7 +517,7 @@ theorem handle_decreases (env : Env) (wf : WF env) (hfin : AllFinal env) (s : St
     cases hv : awakeP s.P s.now i
     · rfl
     · exfalso; apply haw; rw [List.any_eq_true]; exact ⟨i, hi, hv⟩
-  have hA : Av (env.sel (causeOf s)) s.P s.now = 1 := by simp [Av, haw]
+  have hA : Av (selOf env s) s.P s.now = 1 := by simp [Av, haw]
   by_cases hex : extras (cfgOf env s) s.P s.now = true
   · -- nobody is due, superseded records are re-purposed
     rcases handleTurn_cases env s with ⟨_, h⟩ | ⟨d, _, hm, h⟩ | ⟨_, _, h⟩
@@ -489,8 +557,8 @@ theorem handle_decreases (env : Env) (wf : WF env) (hfin : AllFinal env) (s : St
       rw [h]
       have hle : s.now ≤ s.now + env.cap + (latS env) := int_le_add2 s.now env.cap (latS env) wf.cap (latS_nonneg env wf)
       obtain ⟨k1, k2⟩ := key _ _ hle
-      have hstrict : Cv env.cap (env.sel (causeOf s)) (pass env s).P' (s.now + env.cap + (latS env))
-          < Cv env.cap (env.sel (causeOf s)) s.P s.now := by
+      have hstrict : Cv env.cap (selOf env s) (pass env s).P' (s.now + env.cap + (latS env))
+          < Cv env.cap (selOf env s) s.P s.now := by
         unfold Cv
         apply sum_map_lt _ _ _ _ i hi
         · unfold slack
@@ -508,9 +576,9 @@ theorem handle_decreases (env : Env) (wf : WF env) (hfin : AllFinal env) (s : St
       rw [h]
       have hle : s.now ≤ s.now + d + (latS env) := int_le_add3 s.now d (latS env) hd (latS_nonneg env wf)
       obtain ⟨k1, k2⟩ := key _ _ hle
-      have hAw : Av (env.sel (causeOf s)) (pass env s).P' (s.now + d + (latS env)) = 0 := by
+      have hAw : Av (selOf env s) (pass env s).P' (s.now + d + (latS env)) = 0 := by
         unfold Av
-        have : (env.sel (causeOf s)).any (awakeP (pass env s).P' (s.now + d + (latS env))) = true := by
+        have : (selOf env s).any (awakeP (pass env s).P' (s.now + d + (latS env))) = true := by
           rw [List.any_eq_true]
           refine ⟨i, hi, ?_⟩
           unfold awakeP
